@@ -193,7 +193,7 @@ func parseRaceLogs(dir string) []raceReport {
 }
 
 func checkC13(c *core.Ctx) []core.Floor {
-	c.Rule = "one session goroutine against the REAL 100 ms flush goroutine. Each pass executes every statement kind {CREATE TABLE, INSERT single, INSERT multi-row (splitting; also 300 rows), UPDATE and DELETE (also over 300 rows), SELECT scan, SELECT join} with placements {idle gap > 1 tick before and after, park of > 2 ticks at the statement's 2nd page change, park of > 2 ticks inside the log append, SELECT: park at a cache miss}, on fresh pages and after a reload (cold cache). (a) -race build: handlers only sleep on the session goroutine and add no synchronisation; every data-race report with mkdb frames is a violation (happens-before reasoning, independent of the observed timing). (b) plain build: every hook event is logged with its goroutine id; offline checker: no page or header write by a goroutine other than the session's between a statement's first page change and the completion of its log append (CREATE TABLE: its last page change). Distinct = (pass, statement, placement); non-trivial = the statement was actually held open (parked) across more than two timer periods."
+	c.Rule = "one session goroutine against the REAL 100 ms flush goroutine. Each pass executes every statement kind {CREATE TABLE, INSERT single, INSERT multi-row (splitting; also 300 rows), UPDATE and DELETE (also over 300 rows), SELECT scan, SELECT join} with placements {idle gap > 1 tick before and after, park of > 2 ticks at the statement's 2nd page change, park of > 2 ticks inside the log append, SELECT: park at a cache miss}, on fresh pages and after a reload (cold cache). (a) -race build: handlers only sleep on the session goroutine and add no synchronisation; every data-race report with mkdb frames is a violation (happens-before reasoning, independent of the observed timing). (b) plain build: every hook event is logged with its goroutine id; offline checker: no page or header write by ANY goroutine between a statement's first page change and the completion of its log append (CREATE TABLE: its last page change); the same checker runs over passes with a page cache of 10-24 pages and statements that dirty hundreds of pages (the statement may be refused with 'cache is full', but must not push its own half-done pages to the data file). Distinct = (pass, statement, placement); non-trivial = the statement was actually held open (parked) across more than two timer periods."
 	c.Assume = []string{"a park of 230-400 ms spans at least two 100 ms ticks", "handlers of the race build run on the session goroutine only and share nothing with the flusher"}
 	passes := 2
 	if !core.Quick(c) {
@@ -222,7 +222,8 @@ func checkC13(c *core.Ctx) []core.Floor {
 			runC13Log(c, plain, dir, sc, pass, j.pass)
 		}
 	})
-	fl := []core.Floor{{Key: "race_build_runs", Min: int64(passes)}, {Key: "log_build_runs", Min: int64(passes)}, {Key: "foreign_flushes_observed", Min: 20}, {Key: "statement_windows_checked", Min: 20}}
+	core.ParallelFor(passes*2, c.Workers, func(i int) { runC13Saturated(c, plain, i) })
+	fl := []core.Floor{{Key: "saturated_cache_runs", Min: int64(passes)}, {Key: "race_build_runs", Min: int64(passes)}, {Key: "log_build_runs", Min: int64(passes)}, {Key: "foreign_flushes_observed", Min: 20}, {Key: "statement_windows_checked", Min: 20}}
 	for _, cell := range []string{"create_dirty2", "insert_wal", "insert_multi_dirty2", "insert_multi_wal", "update_dirty2", "update_wal", "delete_dirty2", "delete_wal", "select_miss", "join_miss"} {
 		fl = append(fl, core.Floor{Key: "parked_log_" + cell, Min: 1}, core.Floor{Key: "parked_race_" + cell, Min: 1})
 	}
@@ -306,9 +307,6 @@ func runC13Log(c *core.Ctx, drv, dir string, sc script, pass []c13Stmt, passNo i
 		return
 	}
 	evRes := out.Res[len(sc.ops)-1]
-	sess := evRes.N
-	events := evRes.Events
-	c.Count("events_logged", int64(len(events)))
 	byStmt := map[int]string{}
 	si := 0
 	for _, op := range sc.ops {
@@ -317,6 +315,16 @@ func runC13Log(c *core.Ctx, drv, dir string, sc script, pass []c13Stmt, passNo i
 			si++
 		}
 	}
+	c13CheckWindows(c, evRes.Events, evRes.N, byStmt, passNo)
+	c.Sample(2, map[string]interface{}{"pass": passNo, "statements": len(pass), "events": len(evRes.Events), "example_statement": pass[7].sql, "park": pass[7].park})
+}
+
+// c13CheckWindows is the offline checker over the hook event log: between a
+// statement's first page change and the completion of its log append nothing
+// is written to the data file - not by the flusher, and not by the statement
+// itself either.
+func c13CheckWindows(c *core.Ctx, events []proto.Event, sess int64, byStmt map[int]string, passNo int) {
+	c.Count("events_logged", int64(len(events)))
 	// windows
 	type win struct{ begin, end, first, last int }
 	var cur *win
@@ -362,7 +370,7 @@ func runC13Log(c *core.Ctx, drv, dir string, sc script, pass []c13Stmt, passNo i
 			if e.Seq <= w.w.first || e.Seq >= w.w.last {
 				continue
 			}
-			if (e.K == "pageWrite" || e.K == "headerWrite") && e.G != sess {
+			if e.K == "pageWrite" || e.K == "headerWrite" {
 				var around []string
 				for _, x := range events {
 					if x.Seq >= w.w.begin && x.Seq <= w.w.end {
@@ -373,13 +381,77 @@ func runC13Log(c *core.Ctx, drv, dir string, sc script, pass []c13Stmt, passNo i
 					around = around[:80]
 				}
 				kind := strings.ToLower(strings.Fields(byStmt[w.stmt])[0])
-				c.Violation("C13:flusher-wrote-inside-statement:"+kind, fmt.Sprintf("goroutine %d wrote (%s, page %d) between the first page change (event %d) and the end (event %d) of: %s", e.G, e.K, e.Off, w.w.first, w.w.last, byStmt[w.stmt]),
+				sig := "C13:flusher-wrote-inside-statement:"
+				if e.G == sess {
+					sig = "C13:statement-wrote-to-the-data-file-before-its-log-append:"
+				}
+				c.Violation(sig+kind, fmt.Sprintf("goroutine %d wrote (%s, page %d) between the first page change (event %d) and the end (event %d) of: %s", e.G, e.K, e.Off, w.w.first, w.w.last, byStmt[w.stmt]),
 					map[string]interface{}{"pass": passNo, "statement": byStmt[w.stmt], "session_goroutine": sess, "events_of_the_statement": around})
 				break
 			}
 		}
 	}
-	c.Sample(2, map[string]interface{}{"pass": passNo, "statements": len(pass), "events": len(events), "example_statement": pass[7].sql, "park": pass[7].park})
+}
+
+// runC13Saturated: statements whose dirty set exceeds a small page cache. The
+// statement may be refused ("cache is full"), but whatever it does it must not
+// write pages of a half-done, unlogged statement to the data file.
+func runC13Saturated(c *core.Ctx, drv string, passNo int) {
+	dir := c.CaseDir("c13s")
+	defer removeAll(dir)
+	r := core.NewRand(core.SubSeed(c.Seed, "C13S", passNo))
+	var s script
+	s.cfg(false, r.Range(10, 24)) // timer on, a cache of 10-24 pages
+	s.k("init")
+	s.add(proto.Op{K: "c13setup", S: "log"})
+	s.sql("CREATE DATABASE d1")
+	s.sql("USE d1")
+	s.sql("CREATE TABLE a (k INT, g INT, s VARCHAR(40))")
+	byStmt := map[int]string{}
+	rows := func(from, n int) string {
+		var p []string
+		for i := 0; i < n; i++ {
+			p = append(p, fmt.Sprintf("(%d, %d, 'row-%d')", from+i, (from+i)%5, from+i))
+		}
+		return strings.Join(p, ", ")
+	}
+	var ids []int
+	for _, q := range []string{
+		"INSERT INTO a VALUES " + rows(0, 40),
+		"INSERT INTO a VALUES " + rows(1000, r.Range(200, 400)), // far more leaves than the cache holds
+		"UPDATE a SET s = 'changed'",
+		"DELETE FROM a WHERE k >= 0",
+		"INSERT INTO a VALUES " + rows(5000, 30),
+	} {
+		s.add(proto.Op{K: "sleep", N: 130})
+		id := s.add(proto.Op{K: "c13stmt", SQL: proto.Text(q)})
+		byStmt[s.ops[id].ID] = q
+		ids = append(ids, id)
+	}
+	s.add(proto.Op{K: "sleep", N: 150})
+	s.k("close")
+	ev := s.k("c13events")
+	out := core.RunScript(drv, dir, s.ops, 120*time.Second)
+	c.Count("saturated_cache_runs", 1)
+	if out.Died || len(out.Res) != len(s.ops) {
+		if out.TimedOut {
+			c.Inconclusive("watchdog", "C13 saturated-cache pass exceeded the watchdog")
+			return
+		}
+		c.Violation("C13:process-died:"+errClass(core.FatalTail(out.Stderr)), "[saturated cache] process died: "+core.FatalTail(out.Stderr), map[string]interface{}{"pass": passNo})
+		return
+	}
+	for _, id := range ids {
+		switch res := out.Res[id]; {
+		case res.Panic != "":
+			c.Violation("C13:panic:"+res.Frame, "[saturated cache] statement panicked: "+res.Panic, map[string]interface{}{"pass": passNo, "statement": clip(string(s.ops[id].SQL), 200)})
+		case res.Err != "":
+			c.Count("saturated_cache_statements_refused", 1)
+		default:
+			c.Count("saturated_cache_statements_accepted", 1)
+		}
+	}
+	c13CheckWindows(c, out.Res[ev].Events, out.Res[ev].N, byStmt, 1000+passNo)
 }
 
 // c13InScope: the session side of the report runs one of the five statement
